@@ -44,6 +44,67 @@ def family_tables(prog, chk, rule):
            dec == {0: "Err", 1: "IPV4", 2: "IPV6", 3: "Err", 255: "Err"}, b.loc(), detail=repr(dec))
 
 
+def wire_layout_e2(prog, chk, rule):
+    """MappedSocketAddr::write_into_unchecked on a symbolic socket address (std::net addresses as records of numbers, content-tracked
+    destination): the bytes written are 00, family (1 | 2), the port big-endian, the address bits big-endian - 8 bytes for IPv4, 20
+    for IPv6 - whatever statements produce them.  The decoder's layout follows from C08's round trip (decode(to_raw(v)) = v) and
+    C12's agreement of the two writers."""
+    from absint.lin import Lin
+    from absint.values import Seq, Struct, Enum, Num, Ref
+    from absint.models_content import content_segments, show_segments, use_registry, cell_view_id
+    from rules.agent_e2 import Run
+    from rules.c12 import split_be
+    key = A + "MappedSocketAddr::write_into_unchecked"
+    body = prog.bodies.get(key)
+    if body is None:
+        chk.fail(rule, "MappedSocketAddr::write_into_unchecked not found")
+        return
+
+    def setup(run, st):
+        it = run.it
+        dc = it.cell_of(run.fr, 2)
+        dv = st.cells.get(dc)
+        ln = dv.len if isinstance(dv, Seq) else it.fresh_num(st, 0, None, "destlen").e
+        st.sys.add_ge(ln - 20)
+        st.cells["outbuf:dest"] = Seq(ln, None, None, None, ("orig:dest", Lin.const(0)))
+        st.cells[dc] = Seq(ln, None, None, (cell_view_id(it, "outbuf:dest", ()), Lin.const(0)), None)
+    r = Run(prog, key, track_content=True, bool_vars=False, path_sensitive=False, setup=setup, max_parts=400, net_records=True)
+    if r.error or not r.results:
+        chk.fail(rule, "MappedSocketAddr::write_into_unchecked|analysis", body.loc(), r.error or "no return state")
+        return
+    use_registry(r.it)
+    seen = set()
+    for st, ret in r.results:
+        me = r.self_before(st)
+        addr = me.get(0) if isinstance(me, Struct) else None
+        if not (isinstance(addr, Enum) and len(addr.v) >= 1):
+            chk.fail(rule, "MappedSocketAddr::write_into_unchecked|address not understood", body.loc(), repr(me)[:200])
+            continue
+        now = r.self_now(st)
+        cur = now.get(0) if isinstance(now, Struct) else addr
+        fam = sorted(cur.v) if isinstance(cur, Enum) else []
+        if len(fam) != 1:
+            chk.fail(rule, "MappedSocketAddr::write_into_unchecked|a return state does not decide the address family", body.loc(), repr(cur)[:200])
+            continue
+        v6 = fam[0] == 1
+        sv = cur.v[fam[0]].get(0)
+        ip, port = sv.get(0).get(0), sv.get(1)
+        buf = st.cells.get("outbuf:dest")
+        segs = split_be(content_segments(st, buf) or [])
+        want = [("be", 1, Lin.const(0)), ("be", 1, Lin.const(2 if v6 else 1)), ("be", 2, port.e), ("be", 16 if v6 else 4, ip.e)]
+        ok = len(segs) >= 4
+        why = show_segments(segs[:6])
+        for k_ in range(4):
+            if not ok:
+                break
+            g, w = segs[k_], want[k_]
+            ok = g[0] == "be" and g[1] == w[1] and g[2] is not None and st.sys.entails_eq(g[2] - w[2])
+        seen.add(fam[0])
+        chk.ob(rule, "MappedSocketAddr::write_into_unchecked (%s): 00, family %d, port (big-endian), address bits (big-endian)" % ("IPv6" if v6 else "IPv4", 2 if v6 else 1),
+               ok, body.loc(), detail=why[:300], how="E2 content of the destination, socket address as a record of numbers")
+    chk.ob(rule, "both address families are written", seen == {0, 1}, body.loc(), detail=repr(sorted(seen)))
+
+
 def integer_form(prog, chk, b, og, tid):
     rule = "xor-key"
     n = {4: 0, 6: 0}
@@ -192,56 +253,21 @@ def run(prog, chk, tier):
     # ---- layout agreement
     rule = "wire-layout"
     family_tables(prog, chk, rule)
-    db = prog.bodies[A + "MappedSocketAddr::from_raw"]
-    dog = Origins(prog, db)
-    val = ("call", r"Data<'a> as std::ops::Deref>::deref$", [("field", ("param", "raw"), "value")])
-    dec = {}
-    for bi, t in db.calls():
-        n = dog.callee_name(t)
-        args = [dog.operand(a) for a in t["args"]]
-        m = re.search(r"ByteOrder>::read_(u16|u32|u128)$", n)
-        if m and pm(args[0], ("call", r"Index<std::ops::Range<usize>> for \[u8\]>::index$", [val, ("agg", r"Range::Range$", None)]), db):
-            r = strip(strip(args[0]).a[2][1])
-            dec[m.group(1)] = (const_int(r.a[1][0]), const_int(r.a[1][1]))
-        if n.endswith("AddressFamily::from_byte") and strip(args[0]).k == "index" and pm(strip(args[0]).a[0], val, db):
-            dec["family"] = const_int(strip(args[0]).a[1])
-        if re.search(r"slice::<impl \[u8\]>::clone_from_slice$", n):
-            src = strip(args[1])
-            if pm(src, ("call", r"Index<std::ops::RangeFrom<usize>> for \[u8\]>::index$", [val, ("agg", r"RangeFrom::RangeFrom$", None)]), db):
-                dec["v6"] = (const_int(strip(src.a[2][1]).a[1][0]), None)
-        m = re.search(r"check_len\[", n)
-        if m and strip(args[1]).k == "call" and re.search(r"RangeInclusive::<usize>::new$", strip(args[1]).a[0]):
-            lo, hi = (const_int(x) for x in strip(args[1]).a[2])
-            dec.setdefault("lens", []).append((lo, hi))
-    eb = prog.bodies[A + "MappedSocketAddr::write_into_unchecked"]
-    eog = Origins(prog, eb)
-    enc = {}
-    dest = ("param", "dest")
-    for bi, t in eb.calls():
-        n = eog.callee_name(t)
-        args = [eog.operand(a) for a in t["args"]]
-        m = re.search(r"ByteOrder>::write_(u16|u32|u128)$", n)
-        if m and pm(args[0], ("call", r"IndexMut<std::ops::Range<usize>> for \[u8\]>::index_mut$", [dest, ("agg", r"Range::Range$", None)]), eb):
-            r = strip(strip(args[0]).a[2][1])
-            enc.setdefault(m.group(1), set()).add((const_int(r.a[1][0]), const_int(r.a[1][1])))
-    fam_writes = set()
-    zero_writes = set()
-    for bi, si, s in eb.iter_stmts():
-        if s["k"] == "assign" and s["pl"]["p"]:
-            p = strip(eog.place(s["pl"]))
-            v = strip(eog.rvalue(s["rv"]))
-            if p.k == "index" and pm(p.a[0], dest, eb):
-                if v.k == "call" and v.a[0].endswith("AddressFamily::to_byte"):
-                    fam_writes.add(const_int(p.a[1]))
-                elif const_int(v) == 0:
-                    zero_writes.add(const_int(p.a[1]))
-    ok = (dec.get("family") == 1 and fam_writes == {1} and zero_writes == {0}
-          and dec.get("u16") == (2, 4) and enc.get("u16") == {(2, 4)}
-          and dec.get("u32") == (4, 8) and enc.get("u32") == {(4, 8)}
-          and dec.get("v6") == (4, None) and enc.get("u128") == {(4, 20)}
-          and sorted(dec.get("lens", [])) == [(8, 8), (20, 20)])
-    chk.ob(rule, "decoder and encoder agree: family@1, port@2..4, IPv4@4..8 (len 8), IPv6@4..20 (len 20), byte 0 zero", ok,
-           db.loc(), detail="decode %r ; encode %r family@%r zero@%r" % (dec, enc, fam_writes, zero_writes))
+    wire_layout_e2(prog, chk, rule)
+    # ---- the codec of the attribute itself: decided by the C08 / C12 rule instances for XOR-MAPPED-ADDRESS, evaluated here as premises
+    from rules import c01 as _c01
+    for mod, what, pick in (("c08", "XOR-MAPPED-ADDRESS decodes exactly the two RFC layouts, never refuses a well-formed one, and decode(to_raw(v)) = v (C08 rule instances)",
+                             lambda o: "XOR-MAPPED-ADDRESS" in str(o["instance"]) or o["rule"] == "address-fidelity"),
+                            ("c12", "the two writers of XOR-MAPPED-ADDRESS give the same bytes (C12 rule instances)",
+                             lambda o: "XorMappedAddress" in str(o["instance"]))):
+        _c01.sub_check(prog, mod)
+        sub = _c01._SUB_CACHE.get((id(_c01.PREMISE_PROG if _c01.PREMISE_PROG is not None else prog), mod))
+        if sub is None:
+            chk.fail("codec-premise", what, detail="the %s rule set could not be evaluated" % mod.upper())
+            continue
+        mine = [o for o in sub.obs if pick(o)]
+        bad = ["%s|%s" % (o["rule"], o["instance"]) for o in mine if not o["ok"]]
+        chk.ob("codec-premise", what, bool(mine) and not bad, detail="failing: %s" % bad[:4], how="%d rule instances of %s re-evaluated on this tree" % (len(mine), mod.upper()))
     lb = prog.bodies[A + "MappedSocketAddr::length"]
     lens = {}
     adt = prog.adts.get("std::net::SocketAddr")
